@@ -181,8 +181,14 @@ def run_harness(qualname, params_tree, overrides=None):
 def main():
     req = json.load(sys.stdin)
     out = []
-    for item in req["items"]:
-        out.append(run_harness(item["harness"], item["params"], item.get("overrides")))
+    real_stdout = sys.stdout
+    sys.stdout = sys.stderr  # whatever the code under test prints must not end up in the result channel
+    try:
+        for item in req["items"]:
+            out.append(run_harness(item["harness"], item["params"], item.get("overrides")))
+    finally:
+        sys.stdout = real_stdout
+    sys.stdout.write("\n@@VF-RESULT@@")
     json.dump(out, sys.stdout)
 
 
